@@ -113,6 +113,28 @@ def r42(repo, ctx):
             ctx.check(ok, 'R4.2', DP, q, s, f'end face {col}: the prescribed flux of the {val[:-2]} condition, or the neighbouring face {nb} for a fixed composition (zero net flux into the end node)',
                       f'end face {col} is not (flux value if {typ} is FLUX else face {nb}) taken from the {val[:-2]} dictionaries', construct=U.src(s))
     ctx.floor('R4.2', n, 2)
+    # both end faces are written for every element: no path through the element loop leaves an end face as the model left it
+    from .. import cfg as C
+    loops = [l for l in ast.walk(f) if isinstance(l, ast.For) and any(isinstance(t, ast.Subscript) and isinstance(t.value, ast.Name) and t.value.id == arr
+                                                                        for st in ast.walk(l) if isinstance(st, ast.Assign) for t in st.targets)]
+    outer = [l for l in loops if not any(l is not m and any(x is l for x in ast.walk(m)) for m in loops)]
+    for loop in (outer or [f]):      # without an element loop (whole columns written at once) the function body is the region
+        g = C.build(U.body_without_docstring(loop) if loop is f else loop.body, region=True)
+
+        def tr(node, st, label):
+            st = set(st)
+            a = node.ast
+            if node.kind == 'stmt' and isinstance(a, ast.Assign):
+                for t in a.targets:
+                    if isinstance(t, ast.Subscript) and isinstance(t.value, ast.Name) and t.value.id == arr and isinstance(t.slice, ast.Tuple) and len(t.slice.elts) == 2:
+                        st.add(U.src(t.slice.elts[1]))
+            return frozenset(st)
+        at, exits = C.collect(g, frozenset(), tr)
+        short = [(lab, sorted(s_)) for lab, sts in exits.items() for s_ in sts if not {'0', '-1'} <= s_]
+        ctx.check(not short and 'break' not in exits, 'R4.2', DP, q, loop, 'every path through the element loop writes both end faces (0 and -1)',
+                  f'a path through the element loop ({short[0][0] if short else "break"}) writes only the end faces {short[0][1] if short else "of the elements before it"}: '
+                  'the face keeps the value the model put there, so a prescribed flux / fixed composition is not applied for that element',
+                  construct=f'{q}: both end faces on every path')
     q = 'BoundaryConditions.applyBoundaryConditionsToInitialProfile'
     f = repo.func(DP, q)
     arr = U.params(f)[2]
